@@ -206,6 +206,7 @@ func (m *monitor) CreateInformers() error {
 				}
 
 				logEntry.Info("got ns, create dynamic ResourceInformers", slog.String("name", nsName))
+				verifsched.Point("monitor.ns.callback", m.Config.Metadata.DebugName)
 
 				varyingInformers, err := m.CreateInformersForNamespace(nsName)
 				if err != nil {
